@@ -27,7 +27,7 @@ def histories(chk, tier):
         hs += wcommon.gen_histories(chk, [1], [9, 10, 17], 1, 2, nullmode="runs", limit=20000)
         hs += wcommon.gen_histories(chk, [2, 3], [0, 1, 2], 2, 2, limit=20000)
         hs += wcommon.gen_histories(chk, [2, 3, 4, 5, 6, 7, 8], [0, 1, 2, 9, 17], 3, 3, nullmode="runs", anyorder=True,
-                                    simulate=400, depth=60, workers=8)
+                                    simulate=40, depth=60, workers=8)
     return hs
 
 
